@@ -50,8 +50,8 @@ def deletion_family(rng, n, L, alpha, pdel=0.08, psub=0.1):
     return seqs
 
 
-def gen_alignment_input(rng, cls=None):
-    """returns dict(kind, recs, cls)"""
+def gen_alignment_input(rng, cls=None, nl=None):
+    """returns dict(kind, recs, cls); nl = length of the longest name for class line_len_sweep"""
     cls = cls or rng.choice(["width", "width", "names_long", "names_special", "many_rows", "many_lines", "gapfree", "mixedcase", "bulk", "dup_names", "rows_gt_1024", "ragged_right", "line_len_sweep"])
     kind = rng.choice(["dna", "protein"])
     alpha = gen.DNA if kind == "dna" else "DEFHIKLMPQRSVWYACGT"
@@ -71,7 +71,8 @@ def gen_alignment_input(rng, cls=None):
         n = rng.randint(2, 8)
         seqs = gen.family(rng, n, rng.choice([61, 70, 100, 125, 150, 175]), alpha, "random", 0.12, 0.03, 3)
         names = gen.names(rng, n, rng.choice(["s", "rand"]))
-        nl = rng.choice([188, 189, 190, 191, 192]) if rng.random() < 0.5 else rng.randint(180, 200)
+        if nl is None:
+            nl = rng.choice([188, 189, 190, 191, 192]) if rng.random() < 0.5 else rng.randint(180, 200)
         k = rng.randrange(n)
         names[k] = (names[k] + "_" + "".join(rng.choice(gen.NAMECHARS) for _ in range(nl)))[:nl]
     elif cls == "names_special":
